@@ -163,6 +163,15 @@ class qutipEngine(quantumEngine):
         K = qp.Qobj([[1 / f, -i / f], [i / f, -1 / f]], dims=[[2], [2]])
         self.apply_onequbit_gate(K, qubitNum)
 
+    def apply_S(self, qubitNum):
+        """
+        Applies a S (phase) gate to the qubits with number qubitNum.
+        """
+
+        i = complex(0, 1)
+        S = qp.Qobj([[1, 0], [0, i]], dims=[[2], [2]])
+        self.apply_onequbit_gate(S, qubitNum)
+
     def apply_X(self, qubitNum):
         """
         Applies a X gate to the qubits with number qubitNum.
